@@ -23,32 +23,36 @@ M == 2 ^ W                       \* 65536
 Half == 2 ^ (W - 1)
 
 InWindow(x) == -Half <= x /\ x < Half
+\* TLC evaluates an operator argument once per *use* but a function argument
+\* once per application, so helpers that use their argument more than once
+\* are written as functions (f[x]) - otherwise nested calls cost 2^depth.
 Enc(x) == (x + M) % M
-Dec(e) == IF e >= Half THEN e - M ELSE e
+Dec[e \in Nat] == IF e >= Half THEN e - M ELSE e
 
-BAnd(x, y) == Dec(Enc(x) & Enc(y))
-BOr(x, y)  == Dec(Enc(x) | Enc(y))
-BXor(x, y) == Dec(Enc(x) ^^ Enc(y))
-BNot(x)    == Dec((M - 1) - Enc(x))        \* flip all W bits of the pattern
-\* arithmetic shift right by 8: drop the low byte, replicate the sign bit
-Sar8(x) == LET e == Enc(x)
-               hi == e \div 256
-           IN  Dec(IF e >= Half THEN hi + (M - M \div 256) ELSE hi)
+BAnd(x, y) == Dec[Enc(x) & Enc(y)]
+BOr(x, y)  == Dec[Enc(x) | Enc(y)]
+BXor(x, y) == Dec[Enc(x) ^^ Enc(y)]
+BNot(x)    == Dec[(M - 1) - Enc(x)]        \* flip all W bits of the pattern
+\* arithmetic shift right by 8 on a pattern: drop the low byte, replicate the sign bit
+SarPattern[e \in Nat] == IF e >= Half THEN (e \div 256) + (M - M \div 256) ELSE e \div 256
+Sar8(x) == Dec[SarPattern[Enc(x)]]
 
 Byte == 0..255
 Diff == -255..255
 
 ---------------------------------------------------------------------------
 \* memcmp, bit level: the two expressions of the code
-StepBits(res, diff) == BOr(BAnd(res, Sar8(BAnd(diff - 1, BNot(diff)))), diff)
-FinalBits(res) == Sar8(res - 1) + Sar8(res) + 1
+StepF[res \in Int, diff \in Int] == BOr(BAnd(res, Sar8(BAnd(diff - 1, BNot(diff)))), diff)
+StepBits(res, diff) == StepF[res, diff]
+FinalF[res \in Int] == Sar8(res - 1) + Sar8(res) + 1
+FinalBits(res) == FinalF[res]
 
 \* memcmp, abstract: a non-zero difference at a more significant index wins
 StepAbs(res, diff) == IF diff = 0 THEN res ELSE diff
 Sign(x) == IF x < 0 THEN -1 ELSE IF x > 0 THEN 1 ELSE 0
 
 \* memeq, bit level (u8 accumulator) and abstract
-EqStepBits(sum, x, y) == sum | (x ^^ y)
+EqStepBits(sum, x, y) == sum | (x ^^ y)              \* on u8: patterns are the values
 EqStepAbs(sum, x, y) == IF x = y THEN sum ELSE 1     \* 0 <=> all equal so far
 
 \* the step refines the abstract step on the whole accumulator/diff domain,
